@@ -161,6 +161,41 @@ CLAIMS["C05"] = dict(
     technique="sibling normal-form comparison + single-value threading (def-use) + must-pass-through import obligations on the CFG + guard dominance",
     ref="3/C05",
 )
+CLAIMS["C07"] = dict(
+    text="Decides the places where an operation can silently disappear or collapse: (1) error discipline - no exception handler in "
+    "parse_operations / parse_response / parse_parameter / parse_request_body continues without raising; (2) the response status key "
+    "is passed through str() before the type-strict parser (YAML `200:`); (3) operation-id de-duplication is sound (membership test, "
+    "rename until unused, final name recorded) and runs before tag grouping; (4) EndpointsEmitter and ClientVisitor have the same "
+    "tag-grouping normal form (every tag, normalize_tag_key, 'default', max(tag_score) with structurally equal score bodies) and derive "
+    "class/module names with the same sanitizers; (5) between grouping and emission there is no filter: every (operation, tag) pair is "
+    "grouped, every operation of a key is visited, every key writes its module, registers its class and gets an APIClient property. "
+    "Method counts for a concrete document are not executed.",
+    technique="handler error-discipline + key-normalisation def-use + de-dup pattern on the CFG + sibling normal-form comparison + no-filter structural check of the emission loops",
+    ref="3/C07",
+)
+CLAIMS["C13"] = dict(
+    text="Decides the agreement between the three producers of a tag's surface: (1) Protocol stubs and mock methods are cut from exactly "
+    "one EndpointMethodGenerator.generate call per operation; (2) MocksEmitter, EndpointsEmitter and ClientVisitor have identical "
+    "tag-grouping normal forms and the mock mapping is keyed by the canonical tag spelling that names classes and modules; (3) on every "
+    "CFG path of _transform_to_mock from the written signature to the return a `raise NotImplementedError(` line is written; (4) class, "
+    "module, Protocol and mock class names are derived from the canonical tag by the same functions in all six places; (5) the "
+    "coroutine-vs-async-generator decision is taken from the rendered signature's return annotation in both Protocol and mock "
+    "generation. inspect.signature equality for a concrete operation shape is not executed (it follows from (1) up to the textual "
+    "extraction).",
+    technique="single-source who-calls + sibling normal-form comparison of tag grouping/naming + must-pass-through on the mock transformer's CFG",
+    ref="3/C13",
+)
+CLAIMS["C19"] = dict(
+    text="Only the clauses visible in the shape of the code are decided; the metamorphic relation between two renderings is not. "
+    "(1) Key typing: every key of a document mapping that reaches a parser parameter which raises unless it is a str (computed from "
+    "the parsers' own isinstance checks) passes str() first, and no loop over document `.items()` skips or rejects entries on the "
+    "Python type of the key; (2) path-level and operation-level parameters (and responses / request bodies) are parsed with the same "
+    "naming context, so promoted inline schemas are named independently of where and in which order they are declared; (3) the three "
+    "primary-response selectors try exact codes in fixed priority over all responses, i.e. independent of the order of `responses`; "
+    "(4) documents are loaded only through json.loads / yaml.safe_load.",
+    technique="key-typing sensitivity analysis (strict-parameter summaries x items() loops) + sibling call-site agreement + selector normal form",
+    ref="3/C19",
+)
 
 NOT_APPLICABLE = {}
 
